@@ -492,6 +492,27 @@ func genTable(cfg Config, emit func(string, bool, []string)) {
 				g.add("commit")
 				g.nsnap++
 			}
+			// GetWatch / ListWatch through the non-unique tag index: a new object with the same tag and a
+			// SMALLER primary key changes the first match without touching the object found earlier
+			g.add("wtxn m")
+			g.add("ins m %s 1 0 x7a - 0 %d", hx([]byte("t5")), ord)
+			ord++
+			g.add("ins m %s 2 0 x7a - 0 %d", hx([]byte("t9")), ord)
+			ord++
+			g.add("commit")
+			g.nsnap++
+			g.add("rtxn")
+			g.nsnap++
+			{
+				h := fmt.Sprintf("s%d", g.nsnap-1)
+				g.add("getw %s m tags x7a", h)
+				g.add("listw %s m tags x7a", h)
+				g.add("wtxn m")
+				g.add("ins m %s 3 0 x7a - 0 %d", hx([]byte([]string{"t1", "t7", "t95"}[r.IntN(3)])), ord)
+				ord++
+				g.add("commit")
+				g.nsnap++
+			}
 			// a bucket of several objects under one prefix of the non-unique LPM index: removing one
 			// from the middle in a transaction that is then aborted (or committed) must not disturb
 			// what other snapshots see
